@@ -121,7 +121,11 @@ def execute(ctx, case):
       nmsg += 1
   else:
     nmsg = -(-len(case['points']) // max(1, case['batch']))
-  env.reset()
+  if case.get('recv_max_length'):
+    # the receiving daemon's operator raised the frame limit (carbon.conf PICKLE_RECEIVER_MAX_LENGTH)
+    env.reset(PICKLE_RECEIVER_MAX_LENGTH=case['recv_max_length'])
+  else:
+    env.reset()
   rec = env.Recorder(b.events.metricReceived)
   lst = wire.Listener(proto)
   lst.feed(data, [c for c in case['cuts'] if 0 < c < len(data)])
@@ -177,9 +181,21 @@ def execute(ctx, case):
   pushed = getattr(conn.transport, 'pushed_back', 0)
   ctx.note(case, nontrivial=nmsg >= 2 and (big or fts), classes=[proto, 'messages>=2' if nmsg >= 2 else 'one message'] +
            (['transport pushed back mid-stream'] if pushed else []) +
+           (['frame above the default limit, limit raised'] if case.get('recv_max_length') else []) +
            (['extreme magnitude'] if big else []) + (['fractional timestamp'] if fts else []) +
            (['known finding: 5e-11 + half ulp band'] if known_band else []))
 
 
+def big_frame_cases(ctx):
+  """Messages of the default 500 datapoints with long names exceed the default 1 MiB frame limit; with the limit
+  raised on the receiving side they have to get through like any other."""
+  for pad, cuts in ((2400, []), (2200, [3, 70000, 1048576, 1048580])):
+    pts = [['servers.%s.%d' % ('x' * pad, i), 1500000000 + i, float(i)] for i in range(500)]
+    yield {'protocol': 'pickle', 'points': pts, 'batch': 500, 'cuts': cuts, 'pause_after': None, 'recv_max_length': 8 * 2**20}
+
+
 def run(ctx):
+  if (ctx.shard or 0) == 0:
+    for case in big_frame_cases(ctx):
+      execute(ctx, case)
   run_given(ctx, cases(), execute, ctx.scale(600, 5000), salt=1)
